@@ -484,13 +484,13 @@ theorem no_lf_of_after_nil (w : Nat) (v : List Nat) (hA : pbsAfter (pbsFlags w v
 
 /-- **Re-indentation.**  Indenting a printed block string (as the printer's `indent` does, `k`
 spaces after every LF, any `k`) does not change the value the lexer reads. -/
-theorem indent_printed_roundtrip (k w : Nat) (v rest : List Nat) (st : LexState)
+theorem indent_printed_roundtrip_loop (k w : Nat) (v rest : List Nat) (st : LexState) (start ls : Nat)
     (hs : ∀ c ∈ v, isScalar c = true) (hrep : BlockRepresentable v) :
-    tokOf (readBlockString (indentLF k (printBlockStringW w v false) ++ rest) st 0) =
-      .ok (mkToken st .blockString 0 (indentLF k (printBlockStringW w v false)).length (some v)) := by
+    tokOf (readBlockStringLoop (indentLF k (printBlockStringW w v false) ++ rest) st start 3 3 ls [] []) =
+      .ok (mkToken st .blockString start (indentLF k (printBlockStringW w v false)).length (some v)) := by
   rcases pbsAfter_cases (pbsFlags w v false) with hA | hA
   · rw [indentLF_no10 k _ (no_lf_of_after_nil w v hA)]
-    exact printBlockStringW_roundtrip w v false rest st hs hrep
+    exact printBlockStringW_roundtrip_loop w v false rest st start ls hs hrep
   · have hne : v ≠ [] := by
       intro h; subst h
       simp [pbsFlags, pbsAfter, escapeTQ, reSplitNL, endsWith] at hA
@@ -536,8 +536,8 @@ theorem indent_printed_roundtrip (k w : Nat) (v rest : List Nat) (st : LexState)
       have := endsOpen_tail_plain (10 :: List.replicate k 32) (by simp)
         (by intro c hc; simp at hc; rcases hc with rfl | ⟨_, rfl⟩ <;> decide) _ (indentLF k Y) (Nat.le_refl _)
       rw [this] at h; cases h
-    have hscan := scan_value st 0 rest [] (Or.inl rfl) V.length V (Nat.le_refl _) [34, 34, 34] 3
-      st.lineStart [] [] (by simp) hgoodV hopenV
+    have hscan := scan_value st start rest [] (Or.inl rfl) V.length V (Nat.le_refl _) [34, 34, 34] 3
+      ls [] [] (by simp) hgoodV hopenV
     simp only [List.length_cons, List.length_nil, Nat.zero_add, slice_self, List.append_nil,
       List.nil_append, afterLines, List.map_nil] at hscan
     -- the raw lines
@@ -556,7 +556,6 @@ theorem indent_printed_roundtrip (k w : Nat) (v rest : List Nat) (st : LexState)
       have := dedent_printed w v false hne hrep
       rw [hA, hBdef] at this
       simpa [afterLines] using this
-    unfold readBlockString
     rw [htext]
     simp only [List.append_assoc, List.cons_append, List.nil_append, Nat.zero_add] at hscan ⊢
     rw [hscan]
@@ -569,5 +568,12 @@ theorem indent_printed_roundtrip (k w : Nat) (v rest : List Nat) (st : LexState)
     congr 2
     simp
     omega
+
+theorem indent_printed_roundtrip (k w : Nat) (v rest : List Nat) (st : LexState)
+    (hs : ∀ c ∈ v, isScalar c = true) (hrep : BlockRepresentable v) :
+    tokOf (readBlockString (indentLF k (printBlockStringW w v false) ++ rest) st 0) =
+      .ok (mkToken st .blockString 0 (indentLF k (printBlockStringW w v false)).length (some v)) := by
+  unfold readBlockString
+  exact indent_printed_roundtrip_loop k w v rest st 0 st.lineStart hs hrep
 
 end Gql.Text
